@@ -635,6 +635,37 @@ def run(tier: str) -> int:
                               {"source": src, "error": err2})
         else:
             check_public(rep, se, src, to_json(ast.parse(src, mode="eval")), acc2, err2, fn, ncalls, stats)
+    # ---- history: the verdict depends on the text and the declared names of *this* call only --------------------
+    hist_texts = ["x + y", "max(x, y) * t", "abs(x) if y > 0 else t", "x + id_like", "str(x) + str(y)", "(x, y, t)", "min(x, t) - y"]
+    for src in hist_texts:
+        used = sorted({n.id for n in ast.walk(ast.parse(src, mode="eval")) if isinstance(n, ast.Name)} - set(getattr(se._SafeVisitor, "_ALLOWED_FUNCS", ())))
+        if len(used) < 2:
+            continue
+        for order in ("wide-then-narrow", "narrow-then-wide", "other-evaluator"):
+            stats["history_cases"] = stats.get("history_cases", 0) + 1
+            narrow = used[:-1]
+            ev1, ev2 = se.ExpressionEvaluator(), se.ExpressionEvaluator()
+            def verdict(ev, names):
+                try:
+                    ev.compile(src, set(names))
+                    return "accepted"
+                except se.ExpressionError:
+                    return "rejected"
+                except Exception as exc:  # noqa: BLE001
+                    return "raises " + type(exc).__name__
+            if order == "wide-then-narrow":
+                first, second = verdict(ev1, used), verdict(ev1, narrow)
+                want = ("accepted", "rejected")
+            elif order == "narrow-then-wide":
+                first, second = verdict(ev1, narrow), verdict(ev1, used)
+                want = ("rejected", "accepted")
+            else:
+                first, second = verdict(ev1, used), verdict(ev2, narrow)
+                want = ("accepted", "rejected")
+            if (first, second) != want:
+                rep.add_violation(f"verdict-depends-on-history:{order}",
+                                  "the same expression text gets a verdict that depends on an earlier compile with other declared names",
+                                  {"source": src, "declared_all": used, "declared_narrow": narrow, "order": order, "verdicts": [first, second], "documented": list(want)})
     # rejected expression whose first operand would have an observable effect if evaluated early
     for src in ["abs(1) + zz_undeclared", "max(abs(1), (lambda: 0)())", "abs(1).real"]:
         acc2, err2, fn, ncalls = compile_real(se, src)
